@@ -1086,6 +1086,15 @@ def oracle_c08(res, i):
         return f'MISMATCH a blob written concurrently does not parse at the next start: {out}'
     if c in ('restart', 'settle') and out != 'ok':
         return f'MISMATCH {c}: {out}'
+    if c == 'fcounts':
+        v = oracle_c15(res, i)
+        return None if v == 'OK' else v
+    if c in ('r', 'ram') and any(l.startswith('fault create 0 .blob pause') for l in res['script'][:i]):
+        # rotation raced by a manual close: whatever the answer is, it must be the same after the restart
+        j = [x for x in range(i) if res['script'][x] == res['script'][i]]
+        k = [x for x in range(i) if res['script'][x].split()[0] == 'restart']
+        if j and k and j[-1] < k[-1] and res['impl'][j[-1]] != out:
+            return f'MISMATCH the answer changed across a restart: [{res["impl"][j[-1]]}] before, [{out}] after'
     return None
 
 
@@ -1094,7 +1103,7 @@ PROPS['C08'] = dict(
     p_cmds={'conc', 'alive', 'corruptedx', 'restart', 'settle'},
     oracle_cmds={'states'}, py_oracle=oracle_c08, no_oracle_after_nomodel=True, impl_only_cmds={'corruptedx'},
     count={'quick': 32, 'thorough': 300}, timeout=2400,
-    nontrivial=lambda lines: any(l.startswith('conc') for l in lines),
+    nontrivial=lambda lines: any(l.startswith(('conc', 'race2', 'fault create')) for l in lines),
     features=lambda lines: {('conc clients=' + l.split()[1] + (' maint' if 'maint' in l else '')) for l in lines if l.startswith('conc')} |
     {t for l in lines[:1] for t in l.split() if t.startswith(('rt=', 'maxdata='))},
     rule=("2..2000 client tasks, each issuing 4-30 operations (55% writes of 0..5000 bytes, 10% deletes, 20% contains, 15% "
